@@ -616,11 +616,11 @@ def minimize_subcircuits(
         _rename_subcircuit_gates(
             new_circuit, new_subcircuit, input_labels_mapping, output_labels_mapping
         )
-        new_circuit.replace_subcircuit(
-            new_subcircuit, input_labels_mapping, output_labels_mapping
-        )
-
         try:
+            # `replace_subcircuit` checks the result for cycles on its own
+            new_circuit.replace_subcircuit(
+                new_subcircuit, input_labels_mapping, output_labels_mapping
+            )
             check_circuit_has_no_cycles(new_circuit)
         except CircuitValidationError:
             logger.debug("Circuit becomes cyclic")
